@@ -75,7 +75,7 @@ impl Check for C17 {
             1 => any::<u8>().prop_map(|k| Op::Kill { k }),
             2 => (any::<u8>(), any::<bool>(), any::<bool>()).prop_map(|(k, now_client, now_server)| Op::CrossDisconnect { k, now_client, now_server }),
         ];
-        (any::<u64>(), 1u8..7, 1u8..9, prop_oneof![Just(2000u32), Just(5000u32), Just(20000u32)], any::<bool>(), proptest::collection::vec(op, 4..tier.pick(120, 400)), prop_oneof![1 => Just(true), 2 => Just(false)])
+        (any::<u64>(), 1u8..7, 1u8..9, prop_oneof![2 => Just(2000u32), 2 => Just(5000u32), 3 => Just(20000u32), 1 => Just(60_000u32), 1 => Just(600_000u32)], any::<bool>(), proptest::collection::vec(op, 4..tier.pick(120, 400)), prop_oneof![1 => Just(true), 2 => Just(false)])
             .prop_map(|(seed, max_active, max_total, timeout_ms, handshake_errors, ops, check_recovery)| Case { seed, max_active, max_total, timeout_ms, handshake_errors, ops, check_recovery })
             .boxed()
     }
@@ -369,9 +369,20 @@ impl Check for C17 {
                 w.links[ci].blackout_until_us = [u64::MAX, u64::MAX];
             }
             // raw peers' pending entries may have been re-created by in-flight SYNs: wait out the handshake budget
+            // (a handshake whose last frame was already in the server's socket completes in the first of these steps:
+            // such a connection is dropped as well)
             for _ in 0..250 {
                 w.advance(100_000);
                 step_all!();
+                for a in all_addrs.clone() {
+                    if w.server_has_client(&a) && m.connected.contains(&a) && !m.ended.contains(&a) {
+                        if let Some(server) = w.server.as_mut() {
+                            server.drop(&a);
+                        }
+                        m.connected.remove(&a);
+                        m.ended.insert(a);
+                    }
+                }
             }
             // a connection that ended (disconnect from either side or both at once, timeout, refusal, abandoned
             // handshake) occupies its slot for at most the 20 s linger / 22 s retry budget; after 45 s of silence
@@ -379,6 +390,10 @@ impl Check for C17 {
             for _ in 0..200 {
                 w.advance(100_000);
                 step_all!();
+            }
+            if std::env::var_os("VERIF_DEBUG").is_some() {
+                eprintln!("server events: {:?}", w.server_events.iter().map(|e| (e.1, format!("{:?}", e.2).chars().take(60).collect::<String>())).collect::<Vec<_>>());
+                for r in w.wire.iter() { eprintln!("  t={} {}->{} type {} {:?}", r.t_us, r.from.port(), r.to.port(), r.bytes.first().copied().unwrap_or(255), r.fate); }
             }
             for a in all_addrs.iter() {
                 if w.server_has_client(a) {
